@@ -260,23 +260,29 @@ theorem mergeOne_hgt {c : LitCfg} {e : EqEnv} {first : Bool} {n : Nat} {fields f
       split at h
       · cases h
       · split at h
-        · cases h
+        · simp only [pure, Except.pure, Except.ok.injEq] at h; subst h; exact hf
         · split at h
-          · simp only [pure, Except.pure, Except.ok.injEq] at h; subst h; exact hf
-          · simp only [pure, Except.pure, Except.ok.injEq] at h; subst h
-            apply hf.set
-            simp only [hgt]
-            exact merged_hgt c hd hin
+          · cases h
+          · split at h
+            · simp only [pure, Except.pure, Except.ok.injEq] at h; subst h; exact hf
+            · simp only [pure, Except.pure, Except.ok.injEq] at h; subst h
+              apply hf.set
+              simp only [hgt]
+              exact merged_hgt c hd hin
     · simp only [bind, Except.bind] at h
       split at h
       · cases h
       · split at h
-        · cases h
+        · simp only [pure, Except.pure, Except.ok.injEq] at h; subst h; exact hf
         · split at h
-          · simp only [pure, Except.pure, Except.ok.injEq] at h; subst h; exact hf
-          · simp only [pure, Except.pure, Except.ok.injEq] at h; subst h
-            apply hf.set
-            exact merged_hgt c hd horig
+          · cases h
+          · split at h
+            · simp only [pure, Except.pure, Except.ok.injEq] at h; subst h
+              apply hf.set
+              exact hd
+            · simp only [pure, Except.pure, Except.ok.injEq] at h; subst h
+              apply hf.set
+              exact merged_hgt c hd horig
 
 theorem foldlM_mergeOne_hgt {c : LitCfg} {e : EqEnv} {first : Bool} {n : Nat} (model : Fields)
     (hmodel : ∀ kv ∈ model, hgt kv.2 ≤ n) :
